@@ -46,7 +46,7 @@ Proof. exact (edit_stop_first_pass the_params find c_START_REFERENCE_ID). Qed.
 Example C18_nonvacuous :
   let f := utf8_encode [105;110;102;111;33;40;34;98;34;41;59] in
   let rc := mkRunCfg (mkConfig false [([108;111;103], [105;110;102;111])]) true in
-  let o := mkOracle None (Some 1%nat) (fun _ => false) (fun _ => false) (fun _ => FNone) false in
+  let o := mkOracle None (Some 1%nat) (fun _ => false) (fun _ => false) (fun _ => FNone) LkOk in
   ro_exit (edit rc [f; f] (LValid 4) o) = XErr /\
   map id3 (ro_ids (edit rc [f; f] (LValid 4) o)) = [4] /\
   w_lock (after rc [f; f] (LValid 4) o) = LValid 5 /\
